@@ -48,6 +48,12 @@ import (
 //                   and only to addresses it lists; handshake triggers only on such replies; never answers a query;
 //                   sends nothing for host updates and queries.
 //   both:           no panic.
+//
+// Configuration reloads are events of the history alphabet: the node's config.C is reloaded (real ReloadConfigString ->
+// registered reload callbacks -> LightHouse.reload) with another lighthouse.hosts / static_host_map. "Configured
+// lighthouse" in the oracle is the set of the LAST loaded configuration: a host removed from lighthouse.hosts is judged
+// as an ordinary peer from then on (its tunnel stays up), a peer added to it is judged as a lighthouse. A reload itself
+// may not make the node send lighthouse messages, punch, trigger handshakes or hold unauthorised data.
 
 var (
 	c35Me      = netip.MustParseAddr("10.0.0.1")
@@ -149,9 +155,79 @@ type c35Msg struct {
 	Sender, Type, Claim, List, Relay int
 	NoDetails                        bool   // marshal without the Details field at all
 	Raw                              string // non-empty: send these raw bytes instead (malformed payloads); judged as "no effect allowed"
+	Reload                           int    // k>0: not a message but a reload of the receiver's configuration to c35Confs(role)[k-1]
+}
+
+// c35Conf is one configuration of the receiver as far as lighthouse authorisation goes.
+type c35Conf struct {
+	Name   string
+	Hosts  []netip.Addr // lighthouse.hosts
+	Static []netip.Addr // keys of static_host_map (every lighthouse needs one), each with the fixed underlay address c35StaticOf
+}
+
+// configurations of a non-lighthouse receiver; [0] is the start configuration
+var c35NodeConfs = []c35Conf{
+	{"start configuration: hosts=[L]", []netip.Addr{c35L}, []netip.Addr{c35L}},
+	{"hosts=[] (L removed)", nil, []netip.Addr{c35L}},
+	{"hosts=[p] (L removed, p added)", []netip.Addr{c35P}, []netip.Addr{c35L, c35P}},
+	{"hosts=[L,p] (p added)", []netip.Addr{c35L, c35P}, []netip.Addr{c35L, c35P}},
+	{"hosts=[q] (L removed incl. its static entry, q added)", []netip.Addr{c35Q}, []netip.Addr{c35Q}},
+	{"hosts=[p2] (L removed, secondary address of pp2 added)", []netip.Addr{c35P2}, []netip.Addr{c35L, c35P2}},
+}
+
+// a lighthouse receiver has no upstream lighthouses (see assumptions): only the reload of an unchanged configuration
+var c35LhConfs = []c35Conf{{"start configuration: am_lighthouse", nil, nil}}
+
+func c35Confs(role c35Role) []c35Conf {
+	if role.AmLighthouse {
+		return c35LhConfs
+	}
+	return c35NodeConfs
+}
+
+func c35StaticOf(a netip.Addr) netip.AddrPort {
+	switch a {
+	case c35L:
+		return c35LStatic
+	case c35P:
+		return netip.MustParseAddrPort("192.0.2.2:4242")
+	case c35P2:
+		return netip.MustParseAddrPort("192.0.2.22:4242")
+	case c35Q:
+		return netip.MustParseAddrPort("192.0.2.3:4242")
+	}
+	panic("no static address for " + a.String())
+}
+
+// c35ConfYAML renders the configuration file of the receiver; the start configuration and every reload go through it.
+func c35ConfYAML(role c35Role, cf c35Conf) string {
+	var b strings.Builder
+	b.WriteString("listen:\n  port: 4242\npunchy:\n  punch: true\n  respond: true\nlighthouse:\n")
+	if role.AmLighthouse {
+		b.WriteString("  am_lighthouse: true\n")
+		return b.String()
+	}
+	b.WriteString("  hosts: [")
+	for i, h := range cf.Hosts {
+		if i > 0 {
+			b.WriteString(", ")
+		}
+		fmt.Fprintf(&b, "%q", h.String())
+	}
+	b.WriteString("]\nstatic_host_map:\n")
+	for _, a := range cf.Static {
+		fmt.Fprintf(&b, "  %q: [%q]\n", a.String(), c35StaticOf(a).String())
+	}
+	return b.String()
 }
 
 func (m c35Msg) String() string {
+	if m.Reload > 0 {
+		if m.Reload == 1 {
+			return "reload[start configuration]"
+		}
+		return "reload[" + c35NodeConfs[m.Reload-1].Name + "]"
+	}
 	if m.Raw != "" {
 		return fmt.Sprintf("%s:raw(%x)", c35Senders[m.Sender].Name, m.Raw)
 	}
@@ -358,7 +434,9 @@ type c35World struct {
 	punchy *Punchy
 	wr     *c35Writer
 	trig   chan netip.Addr
-	lhSet  []netip.Addr // configured lighthouses of the receiver
+	cfg    *config.C
+	conf   int          // index of the configuration loaded last (c35Confs(role))
+	lhSet  []netip.Addr // configured lighthouses of the receiver: lighthouse.hosts of the configuration loaded last
 	// auth: data the statement allows the receiver to hold. lighthouse: per principal; non-lighthouse: per address.
 	auth  map[string]map[string]bool
 	hist  []string
@@ -375,16 +453,14 @@ func c35NewWorld(c *mc.Check, role c35Role, stats *c35Stats) *c35World {
 		nt.Insert(n)
 	}
 	cs := &CertState{myVpnNetworks: nets, myVpnNetworksTable: nt, myVpnAddrs: []netip.Addr{c35Me, c35Me6}, initiatingVersion: role.Version}
-	w := &c35World{c: c, role: role, auth: map[string]map[string]bool{}, stats: stats}
-	cfg.Settings["listen"] = map[string]any{"port": 4242}
-	cfg.Settings["punchy"] = map[string]any{"punch": true, "respond": true}
-	if role.AmLighthouse {
-		cfg.Settings["lighthouse"] = map[string]any{"am_lighthouse": true}
-	} else {
-		cfg.Settings["lighthouse"] = map[string]any{"hosts": []any{c35L.String()}}
-		cfg.Settings["static_host_map"] = map[string]any{c35L.String(): []any{c35LStatic.String()}}
-		w.lhSet = []netip.Addr{c35L}
-		w.auth[c35L.String()] = map[string]bool{"u:" + c35LStatic.String(): true}
+	w := &c35World{c: c, role: role, auth: map[string]map[string]bool{}, stats: stats, cfg: cfg}
+	start := c35Confs(role)[0]
+	if err := cfg.LoadString(c35ConfYAML(role, start)); err != nil {
+		c.Broken("start configuration: %v", err)
+	}
+	w.lhSet = start.Hosts
+	for _, a := range start.Static {
+		w.authSet(a.String())["u:"+c35StaticOf(a).String()] = true
 	}
 	ctx, cancel := context.WithCancel(context.Background())
 	cancel() // the query worker (non-lighthouse) exits at once; HandleRequest never feeds it
@@ -552,28 +628,20 @@ func (w *c35World) authSet(k string) map[string]bool {
 	return s
 }
 
-// apply delivers one message to the real handler. judge=false (prefix of a replayed history) only keeps the oracle's
-// bookkeeping up to date; judge=true evaluates every rule on this step.
-func (w *c35World) apply(m c35Msg, judge bool) (outcome string) {
-	s := c35Senders[m.Sender]
-	w.hist = append(w.hist, m.String())
-	before := w.snap()
-	w.wr.sent = nil
-	payload := m.bytes()
-	var pan any
+// run executes one event on the real objects inside the virtual-clock critical section: the call itself, the clock
+// advance that fires the punch timers it registered (punchy.delay 1s, respond_delay 5s), and the draining of the punch
+// job queue and of the handshake trigger channel.
+func (w *c35World) run(f func()) (pan any, jobs []holepunchJob, trig []netip.Addr) {
 	c35Clock.Lock()
+	defer c35Clock.Unlock()
 	if n := vtime.PendingTimers(); n != 0 {
-		c35Clock.Unlock()
-		w.c.Broken("%d virtual timers pending before a handler call", n)
+		w.c.Broken("%d virtual timers pending before an event", n)
 	}
 	func() {
 		defer func() { pan = recover() }()
-		w.lhh.HandleRequest(netip.MustParseAddrPort("203.0.113.7:7777"), slices.Clone(s.Addrs), payload, w.wr)
+		f()
 	}()
-	// fire the punch timers (punchy.delay 1s, respond_delay 5s) and take the jobs off the scheduler queue
 	vtime.Advance(10 * vtime.Second)
-	var jobs []holepunchJob
-	var trig []netip.Addr
 	for more := true; more; {
 		select {
 		case j := <-w.punchy.sched.queue:
@@ -584,7 +652,154 @@ func (w *c35World) apply(m c35Msg, judge bool) (outcome string) {
 			more = false
 		}
 	}
-	c35Clock.Unlock()
+	return
+}
+
+// isLH: is the identity one of the receiver's configured lighthouses under the configuration loaded last?
+func (w *c35World) isLH(s c35Ident) bool {
+	for _, a := range s.Addrs {
+		if slices.Contains(w.lhSet, a) {
+			return true
+		}
+	}
+	return false
+}
+
+// wasLH: was the identity a configured lighthouse of the (non-lighthouse) receiver under its start configuration?
+func (w *c35World) wasLH(s c35Ident) bool {
+	for _, a := range s.Addrs {
+		if !w.role.AmLighthouse && slices.Contains(c35NodeConfs[0].Hosts, a) {
+			return true
+		}
+	}
+	return false
+}
+
+// class names the sender relative to the receiver's current and start configuration (used in signatures).
+func (w *c35World) class(s c35Ident) string {
+	if w.role.AmLighthouse {
+		return s.Class
+	}
+	was, is := w.wasLH(s), w.isLH(s)
+	switch {
+	case was && !is:
+		return "former " + s.Class + " (removed from lighthouse.hosts by a reload)"
+	case !was && is:
+		return s.Class + " added to lighthouse.hosts by a reload"
+	}
+	return s.Class
+}
+
+func c35Changed(before, after map[string]c35RLView) (changed []string) {
+	for k, v := range after {
+		if b, ok := before[k]; !ok || c35JSON(b) != c35JSON(v) {
+			changed = append(changed, k)
+		}
+	}
+	for k := range before {
+		if _, ok := after[k]; !ok {
+			changed = append(changed, k)
+		}
+	}
+	sort.Strings(changed)
+	return
+}
+
+// applyReload reloads the receiver's configuration through the real path (config.C.ReloadConfigString -> the callbacks
+// NewLightHouseFromConfig / NewPunchyFromConfig registered). From here on the oracle's "configured lighthouses" are the
+// lighthouse.hosts of the new configuration.
+func (w *c35World) applyReload(m c35Msg, judge bool) (outcome string) {
+	confs := c35Confs(w.role)
+	cf := confs[m.Reload-1]
+	w.hist = append(w.hist, "reload: "+cf.Name)
+	before := w.snap()
+	w.wr.sent = nil
+	var err error
+	pan, jobs, trig := w.run(func() { err = w.cfg.ReloadConfigString(c35ConfYAML(w.role, cf)) })
+	if err != nil {
+		w.c.Broken("reload to %q refused: %v", cf.Name, err)
+	}
+	after := w.snap()
+	changedConf := w.conf != m.Reload-1
+	w.conf = m.Reload - 1
+	w.lhSet = cf.Hosts
+	for _, a := range cf.Static { // static_host_map entries are the receiver's own configuration
+		w.authSet(a.String())["u:"+c35StaticOf(a).String()] = true
+	}
+	changed := c35Changed(before, after)
+	outcome = fmt.Sprintf("reload changed=%v sent=%d punchJobs=%d triggers=%d panic=%v", len(changed) > 0, len(w.wr.sent), len(jobs), len(trig), pan != nil)
+	if !judge {
+		return outcome
+	}
+	ctx := fmt.Sprintf("%s reloads its configuration", w.role.Name)
+	viol := func(sig string, extra map[string]any) {
+		d := map[string]any{"receiver": w.role.Name, "history": append([]string(nil), w.hist...), "new_configuration": c35ConfYAML(w.role, cf),
+			"outcome": outcome, "cache_before": before, "cache_after": after}
+		for k, v := range extra {
+			d[k] = v
+		}
+		w.c.Violation(ctx+": "+sig, d)
+	}
+	if pan != nil {
+		viol("the reload panicked", map[string]any{"panic": fmt.Sprint(pan)})
+		return outcome + " PANIC"
+	}
+	// no message arrived: nothing may be answered, punched or triggered, and whatever the cache holds afterwards must
+	// still be data an authorised sender (or the receiver's own static_host_map) reported. ◊ weak reading: a reload
+	// may drop or rebuild entries (static hosts are rebuilt), the statement only restricts what is recorded.
+	for k, v := range after {
+		var as map[string]bool
+		if w.role.AmLighthouse {
+			as = w.auth[c35Principal(netip.MustParseAddr(k))]
+		} else {
+			as = w.auth[k]
+		}
+		for owner, ts := range v.Owners {
+			for _, t := range ts {
+				if !as[t] {
+					viol("the cache holds data for an address that no authorised sender reported", map[string]any{"key": k, "owner": owner, "datum": t})
+				}
+			}
+		}
+	}
+	if len(w.wr.sent) > 0 {
+		viol("a lighthouse message was sent", map[string]any{"sent": len(w.wr.sent)})
+	}
+	if len(jobs) > 0 {
+		viol("punches were scheduled", map[string]any{"jobs": fmt.Sprint(jobs)})
+	}
+	if len(trig) > 0 {
+		viol("a handshake was triggered", map[string]any{"triggered": fmt.Sprint(trig)})
+	}
+	r := "node"
+	if w.role.AmLighthouse {
+		r = "lh"
+	}
+	w.stats.inc("reload:" + r + ":" + cf.Name)
+	if changedConf {
+		w.stats.inc("reload:" + r + ":configuration-changed")
+	}
+	if len(changed) > 0 {
+		w.stats.inc("reload:" + r + ":cache-changed(static hosts rebuilt)")
+	}
+	w.c.Distinct("outcomes", r+"/reload/"+cf.Name+"/"+outcome)
+	return outcome
+}
+
+// apply delivers one event to the real objects. judge=false (prefix of a replayed history) only keeps the oracle's
+// bookkeeping up to date; judge=true evaluates every rule on this step.
+func (w *c35World) apply(m c35Msg, judge bool) (outcome string) {
+	if m.Reload > 0 {
+		return w.applyReload(m, judge)
+	}
+	s := c35Senders[m.Sender]
+	w.hist = append(w.hist, m.String())
+	before := w.snap()
+	w.wr.sent = nil
+	payload := m.bytes()
+	pan, jobs, trig := w.run(func() {
+		w.lhh.HandleRequest(netip.MustParseAddrPort("203.0.113.7:7777"), slices.Clone(s.Addrs), payload, w.wr)
+	})
 	after := w.snap()
 
 	// ---- what the statement authorises for this message -------------------------------------------------------
@@ -606,12 +821,7 @@ func (w *c35World) apply(m c35Msg, judge bool) (outcome string) {
 	if m.NoDetails {
 		toks = map[string]bool{}
 	}
-	fromLH := false
-	for _, a := range s.Addrs {
-		if slices.Contains(w.lhSet, a) {
-			fromLH = true
-		}
-	}
+	fromLH := w.isLH(s) // configured lighthouse under the configuration loaded last
 	claimOwn := len(claim) == 0 // ◊ weak reading: an update naming several addresses is the sender's if any of them is
 	for _, a := range claim {
 		if c35In(a, s.Addrs) {
@@ -650,18 +860,7 @@ func (w *c35World) apply(m c35Msg, judge bool) (outcome string) {
 	}
 
 	// ---- observed effects ------------------------------------------------------------------------------------------
-	var changed []string
-	for k, v := range after {
-		if b, ok := before[k]; !ok || c35JSON(b) != c35JSON(v) {
-			changed = append(changed, k)
-		}
-	}
-	for k := range before {
-		if _, ok := after[k]; !ok {
-			changed = append(changed, k)
-		}
-	}
-	sort.Strings(changed)
+	changed := c35Changed(before, after)
 	var sentKinds []string
 	decoded := make([]c35Decoded, len(w.wr.sent))
 	for i, sm := range w.wr.sent {
@@ -684,9 +883,11 @@ func (w *c35World) apply(m c35Msg, judge bool) (outcome string) {
 			what += " without Details"
 		}
 	}
-	ctx := fmt.Sprintf("%s receives %s from %s", w.role.Name, what, s.Class)
+	class := w.class(s)
+	ctx := fmt.Sprintf("%s receives %s from %s", w.role.Name, what, class)
 	detail := func(extra map[string]any) map[string]any {
 		d := map[string]any{"receiver": w.role.Name, "history": append([]string(nil), w.hist...), "sender_vpn_addrs": fmt.Sprint(s.Addrs),
+			"configured_lighthouses": fmt.Sprint(w.lhSet),
 			"message": m.String(), "payload_hex": fmt.Sprintf("%x", payload), "outcome": outcome, "cache_before": before, "cache_after": after}
 		for k, v := range extra {
 			d[k] = v
@@ -877,6 +1078,12 @@ func (w *c35World) apply(m c35Msg, judge bool) (outcome string) {
 			case NebulaMeta_HostQueryReply:
 				if replyAuth && len(changed) > 0 {
 					st.inc("node:reply-recorded:" + s.Name)
+					if !w.wasLH(s) {
+						st.inc("node:reply-recorded-from-added-lighthouse:" + s.Name)
+					}
+				}
+				if !replyAuth && !effect && w.wasLH(s) {
+					st.inc("node:reply-from-former-lighthouse-rejected:" + s.Name)
 				}
 				if replyAuth && len(trig) > 0 {
 					st.inc("node:reply-triggered-handshake")
@@ -887,6 +1094,12 @@ func (w *c35World) apply(m c35Msg, judge bool) (outcome string) {
 			case NebulaMeta_HostPunchNotification:
 				if punchAuth && len(jobs) > 0 {
 					st.inc("node:punch-scheduled:" + s.Name)
+					if !w.wasLH(s) {
+						st.inc("node:punch-scheduled-for-added-lighthouse:" + s.Name)
+					}
+				}
+				if !punchAuth && !effect && w.wasLH(s) {
+					st.inc("node:punch-from-former-lighthouse-rejected:" + s.Name)
 				}
 				if !punchAuth && !effect {
 					st.inc("node:punch-from-non-lighthouse-rejected")
@@ -902,11 +1115,39 @@ func (w *c35World) apply(m c35Msg, judge bool) (outcome string) {
 			}
 		}
 	}
-	w.c.Distinct("outcomes", r+"/"+c35TypeName(ty)+"/"+s.Class+"/"+c35ClaimClass(m)+"/"+outcome)
+	w.c.Distinct("outcomes", r+"/"+c35TypeName(ty)+"/"+class+"/"+c35ClaimClass(m)+"/"+outcome)
 	return outcome
 }
 
-func (w *c35World) key() string { return w.role.Name + "|" + c35JSON(w.snap()) }
+// key: canonical state = the configuration loaded last (oracle side), the lighthouse and static host lists the
+// implementation holds, and the canonical address cache.
+func (w *c35World) key() string {
+	lhs := []string{}
+	for _, a := range w.lh.GetLighthouses() {
+		lhs = append(lhs, a.String())
+	}
+	sort.Strings(lhs)
+	static := []string{}
+	for a := range w.lh.GetStaticHostList() {
+		static = append(static, a.String())
+	}
+	sort.Strings(static)
+	return fmt.Sprintf("%s|conf%d|lh=%v|static=%v|%s", w.role.Name, w.conf, lhs, static, c35JSON(w.snap()))
+}
+
+// c35ReloadEvents: one reload event per configuration of the role (including the reload of the configuration in force).
+// small=true (histories of the quick tier): the first four configurations of a non-lighthouse (L removed, L replaced by
+// p, p added next to L, back to the start); the other two are reached in the product phase (seeded states) only.
+func c35ReloadEvents(role c35Role, small bool) []c35Msg {
+	var out []c35Msg
+	for i := range c35Confs(role) {
+		if small && i >= 4 {
+			break
+		}
+		out = append(out, c35Msg{Reload: i + 1})
+	}
+	return out
+}
 
 // ---------------------------------------------------------------------------------------------------------------
 // alphabets
@@ -960,11 +1201,25 @@ func c35Seeds(role c35Role) [][]c35Msg {
 		return [][]c35Msg{
 			nil,
 			{{Sender: 2, Type: 2, Claim: 0, List: 3, Relay: 2}, {Sender: 3, Type: 2, Claim: 2, List: 1, Relay: 1}, {Sender: 4, Type: 2, Claim: 10, List: 2, Relay: 0}},
+			// the same updates, then a reload of the unchanged configuration
+			{{Sender: 2, Type: 2, Claim: 0, List: 3, Relay: 2}, {Sender: 3, Type: 2, Claim: 2, List: 1, Relay: 1}, {Sender: 4, Type: 2, Claim: 10, List: 2, Relay: 0}, {Reload: 1}},
 		}
 	}
 	return [][]c35Msg{
 		nil,
 		{{Sender: 0, Type: 1, Claim: 5, List: 3, Relay: 2}, {Sender: 4, Type: 1, Claim: 2, List: 1, Relay: 1}, {Sender: 0, Type: 1, Claim: 9, List: 2, Relay: 0}},
+		// states behind a reload (indexes into c35NodeConfs, +1). The lighthouse was in use (answers and punch requests
+		// accepted from it) right before it is removed; peers were refused right before they are added.
+		// L (last: punch request) then every lighthouse removed
+		{{Sender: 0, Type: 1, Claim: 5, List: 3, Relay: 2}, {Sender: 4, Type: 1, Claim: 2, List: 1, Relay: 1}, {Sender: 0, Type: 3, Claim: 5, List: 3, Relay: 0}, {Reload: 2}},
+		// L on its secondary-address tunnel (last: answer), then L replaced by p
+		{{Sender: 0, Type: 1, Claim: 6, List: 3, Relay: 2}, {Sender: 4, Type: 3, Claim: 6, List: 1, Relay: 0}, {Sender: 4, Type: 1, Claim: 1, List: 1, Relay: 1}, {Reload: 3}},
+		// p refused, p added next to L, p (both identities) used as lighthouse, p removed again
+		{{Sender: 1, Type: 1, Claim: 6, List: 3, Relay: 2}, {Reload: 4}, {Sender: 2, Type: 1, Claim: 6, List: 3, Relay: 2}, {Sender: 1, Type: 3, Claim: 6, List: 1, Relay: 0}, {Reload: 1}},
+		// L replaced by the secondary address of pp2: identity p (primary address only) is not a lighthouse
+		{{Reload: 6}, {Sender: 2, Type: 1, Claim: 2, List: 3, Relay: 2}, {Sender: 2, Type: 3, Claim: 2, List: 1, Relay: 0}},
+		// L replaced by q and dropped from static_host_map
+		{{Sender: 0, Type: 1, Claim: 5, List: 3, Relay: 2}, {Reload: 5}, {Sender: 3, Type: 1, Claim: 5, List: 1, Relay: 1}},
 	}
 }
 
@@ -977,6 +1232,7 @@ func TestVerifC35(t *testing.T) {
 	c.Set("alphabet_full", len(full))
 	c.Set("alphabet_histories_large", len(reduced))
 	c.Set("alphabet_histories_small", len(c35ReducedAlphabet(false)))
+	c.Set("reload_configurations", map[string]int{"non-lighthouse": len(c35NodeConfs), "lighthouse": len(c35LhConfs)})
 	c.Set("alphabet_dimensions", map[string]int{"senders": len(c35Senders), "types": len(c35Types), "claims": len(c35Claims), "underlay_lists": c35Lists, "relay_lists": c35Relays, "receiver_roles": len(c35Roles)})
 
 	// determinism: the same history twice gives the same observations
@@ -1009,6 +1265,9 @@ func TestVerifC35(t *testing.T) {
 				if si > 0 && !c.Thorough() && m.Raw == "" && !m.NoDetails && !((m.List == 0 || m.List == 3) && (m.Relay == 0 || m.Relay == 2)) {
 					continue // quick: seeded states see the full type x claim x sender product with two payload shapes
 				}
+				jobs = append(jobs, c35Job{role, seed, m})
+			}
+			for _, m := range c35ReloadEvents(role, false) {
 				jobs = append(jobs, c35Job{role, seed, m})
 			}
 		}
@@ -1044,7 +1303,7 @@ func TestVerifC35(t *testing.T) {
 					states[k] = true
 					productRuns++
 					var n int64
-					if !strings.HasPrefix(out, "changed=false sent=[] punchJobs=0 triggers=0") {
+					if !strings.HasPrefix(out, "changed=false sent=[] punchJobs=0 triggers=0") && !strings.HasPrefix(out, "reload changed=false sent=0 punchJobs=0 triggers=0") {
 						effectful++
 						n = effectful
 					}
@@ -1091,6 +1350,7 @@ func TestVerifC35(t *testing.T) {
 				break
 			}
 			role, ps := c35Roles[ri], ps
+			alpha := append(slices.Clip(slices.Clone(ps.alpha)), c35ReloadEvents(role, !c.Thorough())...) // messages + configuration reloads
 			res := mc.BFSReplay(c, mc.BFSConfig[c35Msg]{
 				MaxDepth: ps.depth,
 				Workers:  0, // parallel: only the handler call + clock advance is serialised (c35Clock)
@@ -1101,11 +1361,14 @@ func TestVerifC35(t *testing.T) {
 					for i, m := range hist {
 						w.apply(m, i == len(hist)-1)
 					}
-					return w.key(), ps.alpha
+					return w.key(), alpha
 				},
 			})
-			perRole[role.Name+" / "+ps.name] = map[string]any{"alphabet": len(ps.alpha), "depth_bound": ps.depth, "states": res.States, "transitions": res.Transitions, "max_depth": res.MaxDepth, "frontier_emptied": res.Exhaustive}
+			perRole[role.Name+" / "+ps.name] = map[string]any{"alphabet": len(alpha), "reload_events": len(alpha) - len(ps.alpha), "depth_bound": ps.depth, "states": res.States, "transitions": res.Transitions, "max_depth": res.MaxDepth, "frontier_emptied": res.Exhaustive}
 		}
+	}
+	if c.OutOfTime() {
+		c.Capped("time budget (history phase)")
 	}
 	c.Set("histories", perRole)
 	c.Set("history_depth", depth)
@@ -1115,6 +1378,8 @@ func TestVerifC35(t *testing.T) {
 	c.Assume("overlay addresses that appear together in one certificate of the sender alphabet ({L,l2}, {p,p2}) are one principal: a tunnel authenticated as p may update the entry shared by p and p2")
 	c.Assume("an update that names two addresses (v1 and v2 field both set) counts as the sender's own if either is one of its authenticated addresses (weak reading)")
 	c.Assume("the lighthouse receiver has no upstream lighthouse.hosts (am_lighthouse with hosts is a warned-about misconfiguration); a lighthouse receiving replies/punch requests is only required not to record them")
+	c.Assume("lighthouse.am_lighthouse is read once at start (nebula documents no reload for it): 'configured as a lighthouse' is the start configuration; only lighthouse.hosts / static_host_map are reloaded, and a lighthouse receiver only reloads its unchanged configuration")
+	c.Assume("'configured lighthouses' of a non-lighthouse = lighthouse.hosts of the configuration loaded last; data a host reported while it was a configured lighthouse may stay in the cache after it is removed (the statement restricts acceptance, not retention)")
 	c.Assume("messages are what protobuf decoding can produce (nil list entries cannot arrive from the wire); zero-valued entries, missing Details and truncated payloads are included")
 	c.Assume("what a non-lighthouse does with HostQueryReply/HostPunchNotification from a configured lighthouse is not constrained beyond: only the entry of the address the reply is about changes, data recorded/punched is data the lighthouse listed")
 
@@ -1125,6 +1390,20 @@ func TestVerifC35(t *testing.T) {
 			"lh:punch-notification-sent", "lh:punch-notification-with-data",
 			"node:reply-recorded:L", "node:reply-recorded:l2L", "node:reply-triggered-handshake", "node:reply-from-non-lighthouse-rejected",
 			"node:punch-scheduled:L", "node:punch-scheduled:l2L", "node:punch-from-non-lighthouse-rejected", "node:update-ignored", "node:query-ignored",
+		}
+		// configuration reloads: every configuration was loaded, lighthouses that were removed are refused, peers that
+		// were added are obeyed (so the reloads really took effect in the implementation), on every sender identity
+		need = append(need, "reload:node:configuration-changed", "reload:node:cache-changed(static hosts rebuilt)",
+			"node:reply-from-former-lighthouse-rejected:L", "node:reply-from-former-lighthouse-rejected:l2L",
+			"node:punch-from-former-lighthouse-rejected:L", "node:punch-from-former-lighthouse-rejected:l2L")
+		for _, n := range []string{"p", "pp2", "q"} {
+			need = append(need, "node:reply-recorded-from-added-lighthouse:"+n, "node:punch-scheduled-for-added-lighthouse:"+n)
+		}
+		for _, cf := range c35NodeConfs {
+			need = append(need, "reload:node:"+cf.Name)
+		}
+		for _, cf := range c35LhConfs {
+			need = append(need, "reload:lh:"+cf.Name)
 		}
 		for _, s := range c35Senders {
 			need = append(need, "sender-effect:lh:"+s.Name, "sender-ignored:lh:"+s.Name, "sender-ignored:node:"+s.Name)
